@@ -155,14 +155,25 @@ def load_check(ctx):
         xml += '</Lexicon>\n</LexicalResource>\n'
         (d / 'k.xml').write_text(xml)
         wn.add(d / 'k.xml', progress_handler=None)
-        (d / 'ic.dat').write_text('wnver::x\n1n 5\n2n 7 ROOT\n3n 2.5\n4v 3 ROOT\n')
         w = wn.Wordnet('k:1')
-        freq = wn.ic.load(d / 'ic.dat', w)
         exp = {'n': {ids[0]: 5.0, ids[1]: 7.0, ids[2]: 2.5, None: 7.0}, 'v': {ids[3]: 3.0, None: 3.0},
                'a': {None: 0.0}, 'r': {None: 0.0}}
-        ctx.case('load-file')
-        if freq != exp:
-            ctx.fail('load()-yields-the-same-structure', {'file': 'ic.dat'}, {'got': str(freq), 'expected': str(exp)})
+        # the same weights in the column layouts such files come in: single blanks, tabs, aligned columns,
+        # trailing blanks, CRLF line ends
+        layouts = {'single-blank': 'wnver::x\n1n 5\n2n 7 ROOT\n3n 2.5\n4v 3 ROOT\n',
+                   'tabs': 'wnver::x\n1n\t5\n2n\t7\tROOT\n3n\t2.5\n4v\t3\tROOT\n',
+                   'aligned': 'wnver::x\n1n    5\n2n    7   ROOT\n3n    2.5\n4v    3   ROOT\n',
+                   'trailing-blank': 'wnver::x\n1n 5 \n2n 7 ROOT \n3n 2.5 \n4v 3 ROOT\n',
+                   'crlf': 'wnver::x\r\n1n 5\r\n2n 7 ROOT\r\n3n 2.5\r\n4v 3 ROOT\r\n'}
+        for name, text in layouts.items():
+            (d / 'ic.dat').write_bytes(text.encode('ascii'))
+            ctx.case('load-file:' + name)
+            try:
+                freq = wn.ic.load(d / 'ic.dat', w)
+            except Exception as e:
+                freq = 'raised ' + type(e).__name__ + ': ' + str(e)[:100]
+            if freq != exp:
+                ctx.fail('load()-yields-the-same-structure', {'file': 'ic.dat', 'layout': name, 'text': text}, {'got': str(freq), 'expected': str(exp)})
     finally:
         import shutil
         shutil.rmtree(d, ignore_errors=True)
